@@ -396,6 +396,8 @@ class UnidirectionalUnifier(UnifierBase):
                     for partition in partitions(s - subset, k - 1):
                         yield [subset, *partition]
 
+            seen_results = set()
+
             for partition in partitions(
                     other_leftovers, len(plain_var_candidates)):
                 result = urec
@@ -406,6 +408,13 @@ class UnidirectionalUnifier(UnifierBase):
                     if not result:
                         break
                 else:
+                    # A pattern variable occurring twice among the operands
+                    # makes several partitions give the same record.
+                    result_key = frozenset(result.equations)
+                    if result_key in seen_results:
+                        continue
+                    seen_results.add(result_key)
+
                     if len(non_var_children) != 0:
                         # urecs was merged in.
                         yield result
